@@ -260,6 +260,8 @@ func c16Ctx(env *c16Env) *plush.Context {
 	rec := newT("r")
 	rec.Next = &T{Name: "n"}
 	ctx.Set("rec", rec)
+	ctx.Set("one1", []interface{}{"only"})
+	ctx.Set("nested2", []interface{}{[]interface{}{1, 2}, []interface{}{3}})
 	ctx.Set("xs", []interface{}{"x0", "x1", "x2", "x3", "x4", "x5", "x6", "x7", "x8", "x9"})
 	return ctx
 }
@@ -465,6 +467,13 @@ func c16Run(b *core.B) {
 		{"body-let-shadows-parameter", `<% let f = fn(a) { let a = a + 1
  return a } %><% let a = 10 %><%= f(a) %>,<%= a %>,<%= f(1) %>`, "11,10,2"},
 		{"rebinding-a-function-name", `<% let f = fn(n) { return n + 1 } %><%= f(1) %><% let f = fn(n) { return n + 100 } %>|<%= f(1) %>`, "2|101"},
+		// the returned value comes back as it is, whatever its shape: arrays of no, one or nested elements
+		{"returns-one-element-array", `<% let one = fn(x) { return [x] } %><%= len(one(5)) %>|<%= one(5)[0] %>|<% let o = one("q") %><%= for (e) in o { %>(<%= e %>)<% } %>`, "1|5|(q)"},
+		{"returns-empty-array", `<% let none = fn() { return [] } %><%= len(none()) %>|<%= none() == nil %>`, "0|false"},
+		{"returns-nested-arrays", `<% let pairs = fn(a, b) { return [[a, b], [b, a]] } %><%= len(pairs(1, 2)) %>|<%= len(pairs(1, 2)[0]) %>|<%= pairs(1, 2)[1][0] %>`, "2|2|2"},
+		{"recursive-list-builder", `<% let upto = fn(n) { if (n == 0) { return [] } return upto(n - 1) + n } %><%= len(upto(3)) %>|<%= upto(3) %>`, "3|123"},
+		{"identity-on-go-slices", `<% let id = fn(x) { return x } %><%= len(id(one1)) %>|<%= len(id(nested2)) %>|<%= len(id(nested2)[0]) %>`, "1|2|2"},
+		{"returns-array-from-inside-a-block", `<% let wrap = fn(x) { if (true) { return [x, [x]] } } %><%= len(wrap(1)) %>|<%= len(wrap(1)[1]) %>`, "2|1"},
 		// every call starts from a fresh scope: what one call bound is not there in the next
 		{"local-of-an-earlier-call-is-gone", `<% let sign = fn(n) { if (n < 0) { let s = "neg" } if (s) { return s } return "non-neg" } %><%= sign(0 - 5) %>,<%= sign(5) %>,<%= sign(0 - 1) %>,<%= sign(0) %>`, "neg,non-neg,neg,non-neg"},
 		{"local-of-an-earlier-call-is-gone-in-a-loop", `<% let sign = fn(n) { if (n < 0) { let s = "neg" } if (s) { return s } return "non-neg" } %><%= for (x) in [0 - 5, 5, 0 - 1, 0] { %><%= sign(x) %>,<% } %>`, "neg,non-neg,neg,non-neg,"},
